@@ -1,7 +1,240 @@
-//! C05 — not built yet.
+//! C05 — fix never turns SQL that parsed into SQL that does not.
+//!
+//! Direct observation (the deciding part; the Coq side is only the decomposition theorem):
+//! for every dialect x rule selection {all, core, each group, each single fix-compatible rule} x
+//! fully parsable input (dialect fixtures and their whitespace-scrambled / collapsed / keyword-case
+//! perturbations): `parse(fix(source))` has no Unparsable node and no parse error.
+//! Also measures the antecedents of `C05_decomposition` on layout / capitalisation selections
+//! (diagnostic): code tokens preserved (C06), preserved up to ASCII case (C16), gap pattern unchanged.
+use serde_json::{Value, json};
+use sqruff_lib::core::linter::core::Linter;
+use sqruff_lib::core::rules::base::RuleGroups;
+use sqruff_lib_core::dialects::syntax::{SyntaxKind, SyntaxSet};
+use sqruff_lib_core::parser::segments::base::Tables;
+
+use crate::c06::{FUSION_PROBES, LAYOUT_CFGS, Linters, code_of, collapse, fnv, lex_tokens, linter, mk_linter, scramble};
 use crate::common::*;
 
-pub fn main(_args: &Args) {
-    eprintln!("c05: not built yet");
-    std::process::exit(2);
+/// (number of Unparsable nodes, number of parse violations, tree present)
+fn parse_status(lt: &Linter, sql: &str) -> Result<(usize, usize, bool), String> {
+    let tables = Tables::default();
+    let r = catch(|| lt.parse_string(&tables, sql, None));
+    match r {
+        Ok(Ok(p)) => {
+            let unp = match &p.tree {
+                Some(t) => t.recursive_crawl(&SyntaxSet::single(SyntaxKind::Unparsable), true, &SyntaxSet::EMPTY, true).len(),
+                None => 0,
+            };
+            Ok((unp, p.violations.len(), p.tree.is_some()))
+        }
+        Ok(Err(e)) => Err(format!("{:?}", e)),
+        Err(p) => Err(format!("panic: {}", p)),
+    }
+}
+
+pub fn selections() -> Vec<(String, &'static str)> {
+    let mut v: Vec<(String, &'static str)> = vec![("all".into(), "all"), ("core".into(), "core")];
+    for g in ["aliasing", "ambiguous", "capitalisation", "convention", "layout", "references", "structure"] {
+        v.push((g.to_string(), "group"));
+    }
+    for r in sqruff_lib::rules::rules() {
+        if r.is_fix_compatible() {
+            v.push((r.code().to_string(), "single"));
+        }
+    }
+    v
+}
+fn is_layout_or_caps(sel: &str) -> bool {
+    sel == "layout" || sel == "capitalisation" || sel.starts_with("LT") || sel.starts_with("CP")
+}
+fn _groups_exist() {
+    // the group names above are the lower-cased RuleGroups variants
+    let _ = [RuleGroups::Aliasing, RuleGroups::Ambiguous, RuleGroups::Capitalisation, RuleGroups::Convention, RuleGroups::Layout, RuleGroups::References, RuleGroups::Structure];
+}
+
+/// flip the case of every keyword-like code token (letters only) by `mode`: 0 upper, 1 lower, 2 alternate
+fn recase(toks: &[(u8, String)], mode: usize) -> String {
+    let mut out = String::new();
+    for (k, (cls, raw)) in toks.iter().enumerate() {
+        if *cls == 0 && raw.chars().all(|c| c.is_ascii_alphabetic() || c == '_') && raw.len() > 1 {
+            match mode {
+                0 => out.push_str(&raw.to_ascii_uppercase()),
+                1 => out.push_str(&raw.to_ascii_lowercase()),
+                _ => {
+                    if k % 2 == 0 {
+                        out.push_str(&raw.to_ascii_uppercase())
+                    } else {
+                        out.push_str(&raw.to_ascii_lowercase())
+                    }
+                }
+            }
+        } else {
+            out.push_str(raw);
+        }
+    }
+    out
+}
+
+fn gap_pattern(toks: &[(u8, String)]) -> Vec<bool> {
+    let mut v = vec![];
+    let mut seen = false;
+    let mut pending = false;
+    for (c, _) in toks {
+        if *c == 0 {
+            if seen {
+                v.push(pending);
+            }
+            seen = true;
+            pending = false;
+        } else {
+            pending = true;
+        }
+    }
+    v
+}
+
+struct Item {
+    cls: &'static str,
+    dialect: String,
+    sel: String,
+    sel_kind: &'static str,
+    sql: String,
+}
+
+fn run_one(ls: &mut Linters, it: &Item, out: &mut Buf) {
+    let lt = linter(ls, &it.dialect, &it.sel, &LAYOUT_CFGS[0]);
+    let input = json!({"dialect": it.dialect, "rules": it.sel, "sql": it.sql});
+    out.count("runs", 1);
+    out.count(&format!("runs_{}", it.sel_kind), 1);
+    // the quantifier: fully parsable inputs only
+    match parse_status(lt, &it.sql) {
+        Ok((0, 0, true)) => {}
+        _ => {
+            out.count("skipped_source_not_fully_parsable", 1);
+            return;
+        }
+    }
+    let r = catch(|| {
+        let lf = lt.lint_string(&it.sql, None, true);
+        lf.fix_string()
+    });
+    let fixed = match r {
+        Ok(s) => s,
+        Err(_) => {
+            out.count("skipped_fix_panicked", 1); // C03's subject
+            return;
+        }
+    };
+    if fixed == it.sql {
+        out.count("unchanged_by_fix", 1);
+        out.direct(it.cls, true, "", "", Value::Null);
+        return;
+    }
+    out.count("changed_by_fix", 1);
+    let key = format!("c05:{}:{}:{}", it.dialect, it.sel, fnv(&it.sql));
+    match parse_status(lt, &fixed) {
+        Ok((0, 0, true)) => out.direct(it.cls, true, "", "", Value::Null),
+        Ok((unp, pv, tree)) => {
+            let msg = format!("source parses cleanly, fix output does not: {} unparsable section(s), {} parse violation(s), tree={}; output: {:?}", unp, pv, tree, trunc(&fixed, 300));
+            out.direct(it.cls, false, &key, &msg, input.clone());
+        }
+        Err(e) => {
+            out.direct(it.cls, false, &key, &format!("source parses cleanly, parsing the fix output fails: {}", e), input.clone());
+        }
+    }
+    // antecedents of the decomposition (diagnostic)
+    if is_layout_or_caps(&it.sel) {
+        if let (Ok(a), Ok(b)) = (lex_tokens(lt, &it.sql), lex_tokens(lt, &fixed)) {
+            let (ca, cb) = (code_of(&a), code_of(&b));
+            let fold = |v: &[String]| v.iter().map(|s| s.to_ascii_uppercase()).collect::<Vec<_>>();
+            if it.sel == "layout" || it.sel.starts_with("LT") {
+                out.hyp("H_C06_code_tokens_preserved", "diagnostic", ca == cb, json!({"input": input}));
+            } else {
+                out.hyp("H_C16_code_tokens_preserved_up_to_case", "diagnostic", fold(&ca) == fold(&cb), json!({"input": input}));
+            }
+            out.hyp("gap_pattern_unchanged", "diagnostic", gap_pattern(&a) == gap_pattern(&b), json!({"input": input}));
+        }
+    }
+}
+
+pub fn main(args: &Args) {
+    silence_panics();
+    let mut out = Out::new(&args.out);
+    let mut rng = Rng::new(args.seed);
+    let mut items: Vec<Item> = vec![];
+    let sels = selections();
+    if let Some(path) = args.flag("--replay-input") {
+        let v: Value = serde_json::from_str(&std::fs::read_to_string(path).unwrap()).unwrap();
+        let v = if v.get("input").is_some() { v["input"].clone() } else { v };
+        items.push(Item {
+            cls: "replay",
+            dialect: v["dialect"].as_str().unwrap_or("ansi").to_string(),
+            sel: v["rules"].as_str().unwrap_or("all").to_string(),
+            sel_kind: "replay",
+            sql: v["sql"].as_str().unwrap_or("").to_string(),
+        });
+    } else {
+        // regression corpus first: the token-adjacency probes of C06 and minimised earlier failures
+        let extra: &[(&str, &str)] = &[
+            ("postgres", "drop procedure delete_actor, update_actor CASCADE;\n"),
+            ("postgres", "CREATE STATISTICS s3 (ndistinct) ON a, b FROM t3;\n"),
+            ("snowflake", "select\n    a,\n    coalesce(first_value(case when a then b else null end) ignore nulls over (order by e), false) as c\nfrom d\n"),
+            ("ansi", "UPDATE table1 SET a = CASE WHEN t2.col = 'T' THEN TRUE WHEN t2.col = 'F' THEN FALSE ELSE NULL END FROM table2 t2;\n"),
+            ("snowflake", "CREATE OR REPLACE EXTERNAL FUNCTION f(a VARCHAR) RETURNS VARIANT API_INTEGRATION = x REQUEST_TRANSLATOR = db.s.fn RESPONSE_TRANSLATOR = db.s.fn2 AS 'https://x/y';\n"),
+        ];
+        for (d, sql) in FUSION_PROBES.iter().chain(extra.iter()) {
+            if !DIALECTS.contains(d) {
+                continue;
+            }
+            for (i, sel) in sels.iter().enumerate() {
+                if i < 2 || ["layout", "convention", "structure", "LT01", "CV07", "ST04"].contains(&sel.0.as_str()) {
+                    items.push(Item { cls: "probe", dialect: d.to_string(), sel: sel.0.clone(), sel_kind: sel.1, sql: sql.to_string() });
+                }
+            }
+        }
+        let corpus = corpus();
+        let (stride, max_len, sel_per_variant) = if args.thorough() { (2usize, 6000usize, 12usize) } else { (14usize, 1800usize, 6usize) };
+        let mut gen_linters: std::collections::HashMap<String, Linter> = Default::default();
+        for (k, f) in corpus.iter().enumerate() {
+            if !DIALECTS.contains(&f.dialect.as_str()) || f.text.len() > max_len {
+                continue;
+            }
+            if (k + args.seed as usize) % stride != 0 {
+                continue;
+            }
+            let gl = gen_linters.entry(f.dialect.clone()).or_insert_with(|| mk_linter(&f.dialect, "all", &LAYOUT_CFGS[0]));
+            match parse_status(gl, &f.text) {
+                Ok((0, 0, true)) => {}
+                _ => continue,
+            }
+            let Ok(toks) = lex_tokens(gl, &f.text) else { continue };
+            let variants: Vec<(&'static str, String)> = vec![
+                ("corpus", f.text.clone()),
+                ("scrambled", scramble(&toks, &mut rng)),
+                ("collapsed", collapse(&toks)),
+                ("recased", recase(&toks, rng.below(3))),
+            ];
+            for (cls, sql) in variants {
+                // every input under all and core; corpus files under every group; plus a seeded sample of the other selections
+                let mut chosen: Vec<usize> = vec![0, 1];
+                if cls == "corpus" {
+                    chosen.extend(2..9);
+                }
+                for _ in 0..sel_per_variant {
+                    chosen.push(rng.below(sels.len()));
+                }
+                chosen.sort();
+                chosen.dedup();
+                for i in chosen {
+                    items.push(Item { cls, dialect: f.dialect.clone(), sel: sels[i].0.clone(), sel_kind: sels[i].1, sql: sql.clone() });
+                }
+            }
+        }
+    }
+    // one Linter (an expanded grammar, tens of MB) per (dialect, selection): keep equal keys adjacent so
+    // that the small per-thread cache of `linter()` is enough (probes stay first within their key)
+    items.sort_by(|a, b| (a.dialect.as_str(), a.sel.as_str()).cmp(&(b.dialect.as_str(), b.sel.as_str())));
+    out.stat(json!({"items": items.len(), "selections": sels.iter().map(|s| s.0.clone()).collect::<Vec<_>>()}));
+    par_run(&mut out, &items, Linters::new, run_one);
+    out.finish();
 }
